@@ -375,6 +375,25 @@ CLAIMED.update({
 })
 
 
+CLAIMED.update({
+    "C08": dict(
+        engine="mirsem",
+        technique="symbolic execution of the rustc MIR of Lexer::lex_single_str with consume / peek_cur_ch / emit_singleline_token(_spanning) / is_bidi inlined from the same dump, on a "
+                  "concrete-shaped Lexer whose source is a quote + k arbitrary Unicode scalar values (z3 integers) + end of input; panics are `unwrap` on None / Err; on Ok paths the "
+                  "column bookkeeping is compared with the number of source characters consumed; counterexamples are replayed on the real lexer (cargo test, catch_unwind)",
+        category="other",
+        text="Kernel-level partial claim on 'the lexer is total and reports faithful token positions': for single-line string literals (the scanner entered after the opening quote; "
+             "k <= 3 characters quick, <= 4 thorough, every Unicode scalar value for each, then the end of the input) (a) no path panics - in particular not when the input ends "
+             "inside an escape sequence - and (b) whenever a token is returned it starts at the opening quote's column and the lexer's column afterwards has advanced by exactly the "
+             "number of source characters consumed, whatever escape sequences the literal contains. All other token kinds, multi-line and interpolated-continuation strings "
+             "(lex_multi_line_str, lex_interpolation_mid - which contain the same patterns), indentation, comments, line numbers and the token iterator are not decided.",
+        note="Trusts rustc's MIR dump, engines/mirsem.py + mirflow.py, z3 and the std contract models listed in the evidence (Vec / slice / Option / Result / Range / String, "
+             "is_ascii_hexdigit, from_str_radix on two checked hex digits, CacheSet::get returning the same text, Token::new as a record of its arguments). Error constructors are "
+             "uninterpreted. The literal is on the first line at column 0 with SingleLine on the interpolation stack.",
+        design="0b/C08"),
+})
+
+
 def load_na():
     p = os.path.join(VERIF, "data", "not_applicable.json")
     return json.load(open(p))
